@@ -378,6 +378,7 @@ class ElectionProfile:
         #  a multiplier of 0 ends the ballot list
         #
         ballotIDs = set()
+        nBallotLines = 0    # ballot lines read, including lines dropped or stored with equal rankings
 
         while True:
             if tok.startswith('('):     # handle ballot ID
@@ -406,6 +407,7 @@ class ElectionProfile:
                 ranking.append([self.getCid(c, len(self.ballotLines)+1) for c in toks])
 
             if ranking:                         # ignore empty ballots
+                nBallotLines += 1
                 ballot = self.BallotLine(self, multiplier, ranking)
                 if isinstance(ballot.ranking, tuple):
                     self.ballotLinesEqual.append(ballot)
@@ -414,9 +416,9 @@ class ElectionProfile:
 
             tok = next(blt)  # next multiplier or 0 for end of ballots
 
-        if ballotIDs and len(ballotIDs) != len(self.ballotLines):
+        if ballotIDs and len(ballotIDs) != nBallotLines:
             raise ElectionProfileError('number of ballot IDs (%d) does not match number of ballots (%d)' % \
-                (len(ballotIDs), len(self.ballotLines)))
+                (len(ballotIDs), nBallotLines))
 
         #  candidate names
         #
